@@ -9,6 +9,13 @@ from . import ConductorAbort
 _defer_depth = 0
 _abort_pending = False
 
+# Set once a `ConductorAbort` has been raised. Signals that arrive afterwards
+# (an impatient second Ctrl-C, a wrapper script that forwards the terminal's
+# SIGINT, a batch system that repeats its SIGTERM) must not interrupt the
+# clean-up that the first one started - e.g. the loop that terminates the
+# running tasks.
+_abort_raised = False
+
 
 def register_signal_handlers():
     signal.signal(signal.SIGINT, _terminate_handler)
@@ -20,11 +27,29 @@ def register_signal_handlers():
         signal.signal(signal.SIGCHLD, signal.SIG_DFL)
 
 
+def restore_default_signal_handlers():
+    """
+    Called when a command is over (nothing is left to abort or to clean up):
+    from here on SIGINT/SIGTERM simply end the process.
+    """
+    signal.signal(signal.SIGINT, signal.SIG_DFL)
+    signal.signal(signal.SIGTERM, signal.SIG_DFL)
+
+
 def _terminate_handler(sig, frame):
     global _abort_pending  # pylint: disable=global-statement
+    if _abort_raised:
+        return
     if _defer_depth > 0 or _in_destructor(frame):
         _abort_pending = True
         return
+    _raise_abort()
+
+
+def _raise_abort():
+    global _abort_pending, _abort_raised  # pylint: disable=global-statement
+    _abort_pending = False
+    _abort_raised = True
     raise ConductorAbort()
 
 
@@ -46,10 +71,8 @@ def raise_pending_abort():
     Raises a `ConductorAbort` that could not be raised at the time its signal
     arrived (and that no `defer_abort()` block is going to raise).
     """
-    global _abort_pending  # pylint: disable=global-statement
     if _defer_depth == 0 and _abort_pending:
-        _abort_pending = False
-        raise ConductorAbort()
+        _raise_abort()
 
 
 @contextlib.contextmanager
@@ -58,12 +81,11 @@ def defer_abort():
     Delays a `ConductorAbort` triggered by SIGINT/SIGTERM until the end of the
     `with` block.
     """
-    global _defer_depth, _abort_pending  # pylint: disable=global-statement
+    global _defer_depth  # pylint: disable=global-statement
     _defer_depth += 1
     try:
         yield
     finally:
         _defer_depth -= 1
         if _defer_depth == 0 and _abort_pending:
-            _abort_pending = False
-            raise ConductorAbort()
+            _raise_abort()
